@@ -70,3 +70,13 @@ pub assume_specification[ usize::div_ceil ](a: usize, b: usize) -> (r: usize)
     ensures
         r == (a + b - 1) / (b as int),
 ;
+
+
+/// S-09  core::cmp::max: the second argument unless the first is strictly greater
+#[verifier::allow(undeclared_external_trait)]
+pub assume_specification<T>[ std::cmp::max ](a: T, b: T) -> (r: T)
+    where T: std::cmp::Ord + std::marker::Destruct,
+    ensures
+        vstd::std_specs::cmp::OrdSpec::cmp_spec(&a, &b) == core::cmp::Ordering::Greater ==> r == a,
+        vstd::std_specs::cmp::OrdSpec::cmp_spec(&a, &b) != core::cmp::Ordering::Greater ==> r == b,
+;
